@@ -110,6 +110,8 @@ def make(kind, dest):
     # strip the [[example]] stanza and dev-dependencies that need files we do not copy
     toml = open(os.path.join(dest, "Cargo.toml")).read()
     toml = re.sub(r"\n\[\[example\]\][^\[]*", "\n", toml)
+    if kind == "p":
+        toml = toml.replace("[features]\n", "[features]\nkani_projection = []\n")
     toml += "\n[workspace]\n"
     toml += '\n[lints.rust]\nunexpected_cfgs = { level = "allow", check-cfg = ["cfg(kani)"] }\n'
     open(os.path.join(dest, "Cargo.toml"), "w").write(toml)
